@@ -32,6 +32,37 @@ func TestBufCloseRace(t *testing.T) {
 		off := rapid.IntRange(0, 255).Draw(t, "offset")
 		trace := []string{fmt.Sprintf("rounds=%d prefill=%d writer=%v observer=%v offset=%d", rounds, prefill, writer, observer, off)}
 		vkit.CaseStart(func() string { return strings.Join(trace, " ; ") })
+		// Close as the very first call on a zero-value Buffer (a deferred Close of a buffer that ended up unused), with the
+		// follow-up calls in a drawn order
+		{
+			b := new(bigbuff.Buffer)
+			order := rapid.Permutation([]string{"done", "put", "newconsumer", "close2", "size"}).Draw(t, "afterFirstClose")
+			if err := b.Close(); err != nil {
+				vkit.Fail(t, "C12/close-error", "Close as the first call on a zero-value Buffer returned %v\ncase: %v", err, trace)
+			}
+			for _, what := range order {
+				switch what {
+				case "done":
+					<-b.Done() // must be closed (a Done that stays open is a stall, reported by the watchdog)
+				case "put":
+					if b.Put(context.Background(), 1) == nil {
+						vkit.Fail(t, "C12+C01/put-accepted", "Put after Close (first call on the Buffer) returned nil; order %v\ncase: %v", order, trace)
+					}
+				case "newconsumer":
+					if _, err := b.NewConsumer(); err == nil {
+						vkit.Fail(t, "C12/newconsumer-after-close", "NewConsumer after Close (first call on the Buffer) returned nil; order %v\ncase: %v", order, trace)
+					}
+				case "close2":
+					if b.Close() == nil {
+						vkit.Fail(t, "C12/second-close-nil", "the second Close returned nil; order %v\ncase: %v", order, trace)
+					}
+				case "size":
+					if n := b.Size(); n != 0 {
+						vkit.Fail(t, "C12/contents-after-close", "Size()=%d on a Buffer that was closed before anything was put\ncase: %v", n, trace)
+					}
+				}
+			}
+		}
 		var dummy atomic.Int64
 		for r := 0; r < rounds; r++ {
 			b := new(bigbuff.Buffer)
